@@ -6,13 +6,13 @@ S_NOTE = ("Trusted: std::sync::mpsc, the threadpool crate, the OS file system. T
           "4-file graphs: one labelled representative per isomorphism class.")
 CHECKS = {
  "C02": dict(engine="S", technique="stateless model checking of the real coordinator: exhaustive DFS over all task completion orders under a controlled scheduler",
-   text="Every acyclic dependency graph on <=3 files (all labelled in thorough) and all isomorphism classes on 4 files (thorough; six named ones in quick), every input selection, stale/absent pre-state, Build/InMemoryBuild/Verify, five source styles (include; after+run cat; mixed; last dependency on the last line; every dependency twice): ALL orders in which gated worker tasks can complete are executed on the real Txtpp::run; outputs must equal the closed-form serial oracle, the hook trace must show each dependency's final pass ending before the depender's final pass begins, and the outcome set per project must be a singleton.",
+   text="Every acyclic dependency graph on <=3 files (all labelled in thorough) and all isomorphism classes on 4 files (thorough; six named ones in quick), every input selection, pre-states stale / absent / every output a symbolic link into another directory (fixed modification times: outputs newer than sources), Build/InMemoryBuild/Verify, files spread over directories with the three name shapes (the infix one with a dotted stem), five source styles (include; after+run cat; mixed; last dependency on the last line; every dependency twice): ALL orders in which gated worker tasks can complete are executed on the real Txtpp::run; outputs must equal the closed-form serial oracle, the hook trace must show each dependency's final pass ending before the depender's final pass begins, and the outcome set per project must be a singleton.",
    ref="4.5, 5/C02", note=S_NOTE),
  "C03": dict(engine="S", technique="stateless model checking of the real coordinator: exhaustive DFS over all task completion orders under a controlled scheduler",
-   text="All digraphs with self-loops (same sizes as C02) with an execution-marker command per file, input selections including duplicates and aliases (same file twice, source and output name, ./ and ../ spellings, absolute path, symlink to the source, directory named twice, directory symlink): every completion order terminates (controller detects the coordinator polling forever, unbounded task creation, panics), on success each required file has exactly one completed final pass, no pass runs twice, each marker has exactly one line; with a failing file anywhere in the graph the run still terminates (unsaturated and single-thread pools); files spread over directories with all three name shapes and ../ includes; dependency lists that name every dependency twice (multi-edges, up to 4 files); an abstract protocol model bound to every explored schedule is explored on all 5-file digraphs.",
+   text="All digraphs with self-loops (same sizes as C02) with an execution-marker command per file, input selections including duplicates and aliases (same file twice, source and output name, ./ and ../ spellings, absolute path, symlink to the source, directory named twice, directory symlink, a directory that holds only links to the sources, a directory link inside an otherwise empty directory with -r, a source-named link whose target has no source name): every completion order terminates (controller detects the coordinator polling forever, unbounded task creation, panics), on success each required file has exactly one completed final pass, no pass runs twice, each marker has exactly one line; with a failing file anywhere in the graph the run still terminates (unsaturated and single-thread pools); files spread over directories with all three name shapes and ../ includes; dependency lists that name every dependency twice (multi-edges, up to 4 files); an abstract protocol model bound to every explored schedule is explored on all 5-file digraphs.",
    ref="4.5, 5/C03", note=S_NOTE),
  "C05": dict(engine="S", technique="stateless model checking of the real coordinator: exhaustive DFS over all task completion orders under a controlled scheduler",
-   text="All digraphs with self-loops on <=3 files and 4-file classes, all selections, modes Build/InMemoryBuild/Verify: in every completion order a selection that can reach a cycle yields Err (never Hang, never Ok), every required file outside the cycle's upstream closure equals the serial oracle afterwards, and an acyclic selection never fails; also with dependency lists that name every dependency twice.",
+   text="All digraphs with self-loops on <=3 files and 4-file classes, all selections, modes Build/InMemoryBuild/Verify: in every completion order a selection that can reach a cycle yields Err (never Hang, never Ok), every required file outside the cycle's upstream closure equals the serial oracle afterwards, and an acyclic selection never fails; also with dependency lists that name every dependency twice and with files spread over directories in the three name shapes (dotted infix stems).",
    ref="4.5, 5/C05", note=S_NOTE),
 }
 E_NOTE = ("Trusted: the reference model M (harness/src/model.rs, written from the README and bound to the implementation from both sides: every "
@@ -21,13 +21,13 @@ E_NOTE = ("Trusted: the reference model M (harness/src/model.rs, written from th
 E_TECH = "bounded-exhaustive enumeration of all inputs over a decision-point alphabet up to a length, every case executed on the real preprocess and compared with a reference state machine (model + conformance of all traces)"
 CHECKS.update({
  "C01": dict(engine="E-lines", technique=E_TECH,
-   text="All sources of <=3 (quick) / <=5 (thorough) lines over a 20-symbol line alphabet chosen from the branches of the directive state machine (plus 4 run symbols to length 3/4, plus a 20-symbol extension alphabet - tab indentation, blank/non-ASCII prefixes, after, CRLF and mixed includes, sub-directory temp targets - to length 3/4), and all include projects on <=2/3 files across three directory levels x 6 body styles x the three source-name shapes, x LF/CRLF x final newline x trailing-newline option, each built by the real preprocess (first pass, final pass and in-memory mode for short ones) and compared byte for byte (output, temp target, verdict) with the parse-then-render reference interpreter on the documented domain (DESIGN 4.3).",
+   text="All sources of <=3 (quick) / <=5 (thorough) lines over a 20-symbol line alphabet chosen from the branches of the directive state machine (plus 4 run symbols to length 3/4, plus a 20-symbol extension alphabet - tab indentation, blank/non-ASCII prefixes, after, CRLF and mixed includes, sub-directory temp targets - to length 3/4), and all include projects on <=2/3 files across three directory levels x 6 body styles x the three source-name shapes, x LF/CRLF x final newline x trailing-newline option, each built by the real preprocess (first pass, final pass and in-memory mode for short ones) and compared byte for byte (output, temp target, verdict) with the parse-then-render reference interpreter on the documented domain (DESIGN 4.3); plus first lines of 8190..70000 bytes, a file-state alphabet (one file rewritten by temp between includes, <=5/6 symbols) and all pairs of seven tag names pending at the same time.",
    ref="4.2, 4.3, 4.7, 5/C01", note=E_NOTE),
  "C12": dict(engine="E-lines", technique=E_TECH,
    text="All sources of <=4/5 lines over 9 line shapes with every source line carrying its own terminator (LF/CRLF/none), included file in 4 line-ending variants and command output in 3: byte scan of output and temp target for any terminator other than the first line's; every uniformly terminated source is also rebuilt (build and --needed) over generated files holding the same text with the other line ending.",
    ref="4.7, 5/C12", note="Trusted: the byte-scan oracle needs no model; domain: CR only before LF. " + E_NOTE),
  "C13": dict(engine="E-lines", technique=E_TECH,
-   text="The C01 source space built with the option on and off by the real preprocess: verdicts equal, temp targets equal, outputs equal or differing by exactly one final line ending, and exactly so when the source ends in an ordinary text line; plus the production CLI's -n flag on all sources of <=1/2 lines.",
+   text="The C01 source space built with the option on and off by the real preprocess: verdicts equal, temp targets equal, outputs equal or differing by exactly one final line ending, and exactly so when the source ends in an ordinary text line; plus dependency pairs, last chunks of 8191..70000 bytes, and the production CLI's -n flag on all sources of <=1/2 lines.",
    ref="4.7, 5/C13", note=E_NOTE),
  "C14": dict(engine="U-tag", technique="explicit-state BFS over the reference tag store; every model transition replayed on the real TagState and the resulting state probed; hash iteration orders observed exhaustively per order-sensitive transition",
    text="BFS to depth 5/7 over the reference store (7 prefix-rich names, 9 contents incl. LF, CRLF and mixed terminators, all inject lines of <=4/5 chars over {a,b,-} x LF/CRLF): every transition of every reachable model state is executed on a real TagState rebuilt from the state's history; return value, resulting names and contents must agree, under every observed iteration order of the hash map. Whole files of <=4/5 lines over a 13-line tag alphabet are compared with M and repeated.",
@@ -36,7 +36,7 @@ CHECKS.update({
    text="Every line of <=4/5 tokens over a 20-token alphabet (incl. U+3000, VT, upper-case look-alikes) through the real Directive::detect_from, every (directive line of <=4 tokens, next line) pair through the real add_line, compared with a reference classifier/continuation matcher written from the property statement; end-to-end sources [l1,l2,END] through whole-file preprocess against M.",
    ref="4.7, 5/C15", note=E_NOTE + " Q4 pairs (spaces form after a non-ASCII prefix) are excluded and counted."),
  "C16": dict(engine="E-lines", technique=E_TECH,
-   text="All texts over 9 directive look-alike tokens (<=2 tokens x <=2/3 lines and <=3 tokens x <=1/2 lines): directive-free ones must be reproduced verbatim (LF/CRLF, final newline, option); every admissible text is round-tripped through its write-escape without a stored tag, with one in scope, and captured by a second tag and injected next to the first; on the C01 space ordinary lines must appear in order.",
+   text="All texts over 11 directive look-alike tokens (incl. NUL and U+FEFF) (<=2 tokens x <=2/3 lines and <=3 tokens x <=1/2 lines): directive-free ones must be reproduced verbatim (LF/CRLF, final newline, option), also with lines of 8191..70000 bytes in build and --needed; every admissible text is round-tripped through its write-escape without a stored tag, with one in scope, and captured by a second tag and injected next to the first; on the C01 space ordinary lines must appear in order.",
    ref="4.7, 5/C16", note=E_NOTE),
 })
 H_NOTE = ("Trusted: the OS file system (tmpfs); runs use the controller's canonical schedule (schedules belong to C02-C05); Fresh(sources) is computed "
@@ -44,18 +44,18 @@ H_NOTE = ("Trusted: the OS file system (tmpfs); runs use the controller's canoni
 H_TECH = "explicit-state breadth-first search over operation histories (txtpp runs x edits x tamperings) with state de-duplication on tree content; invariants evaluated on every transition of the real implementation"
 CHECKS.update({
  "C06": dict(engine="H", technique=H_TECH, ref="4.6, 5/C06", note=H_NOTE,
-   text="BFS to depth 2-3 (quick) / 3-4 (thorough) on seven projects (incl. an empty output, an output of exactly one 8 KiB buffer, a 17 KB output), an exhaustive single-byte sweep (every offset x all 255 other values, deletion, insertion) of every output, per-source mini-histories over all sources of <=3/4 lines, and the production binary on every RUN transition of one project; over histories of {build, needed, verify, clean} x input selections x trailing-newline flag, source edits and 11 kinds of tampering of each generated file, from the pristine and the freshly built tree: on every verify transition, success iff every output of the processed sources and their dependencies equals what a pristine build writes now; outputs keep bytes, inode and mtime."),
+   text="BFS to depth 2-3 (quick) / 3-4 (thorough) on seven projects (incl. an empty output, an output of exactly one 8 KiB buffer, a 17 KB output), an exhaustive single-byte sweep (every offset x all 255 other values, deletion, insertion) of every output, per-source mini-histories over all sources of <=3/4 lines, and the production binary on every RUN transition of one project; over histories of {build, needed, verify, clean} x input selections x trailing-newline flag, source edits and 11 kinds of tampering of each generated file, from the pristine and the freshly built tree (nine projects, incl. a dependency reached only by `after`, outputs of 0, 8192 and > 65536 bytes, dotted names, a directory link), plus build/verify through an output path that is a symbolic link: on every verify transition, success iff every output of the processed sources and their dependencies equals what a pristine build writes now; outputs keep bytes, inode and mtime."),
  "C07": dict(engine="H", technique=H_TECH, ref="4.6, 5/C07", note=H_NOTE + " Known finding F4 (clean does not follow dependencies) is listed in known_findings.json.",
-   text="Same search plus all sources of <=3/5 lines over a 13-line alphabet rich in directive look-alikes inside multi-line directives (clean without build changes nothing; build then clean restores the tree): every clean transition succeeds (also with erroneous sources), runs no command (marker files), creates nothing, deletes no .txtpp file and touches only outputs/temp targets of the named sources; from a freshly built state, clean of the same inputs restores the pre-build tree exactly."),
+   text="Same search plus all sources of <=3/5 lines over a 20-line alphabet rich in directive look-alikes inside multi-line directives, temp directives naming existing files / txtpp files / a symbolic link / without prefix (clean without build changes nothing; build then clean restores the tree): every clean transition succeeds (also with erroneous sources), runs no command (marker files), creates nothing, deletes no .txtpp file and touches only outputs/temp targets of the named sources; from a freshly built state, clean of the same inputs restores the pre-build tree exactly."),
  "C08": dict(engine="H + K", technique=H_TECH + "; crash points enumerated with strace fault injection", ref="4.6, 5/C08", note=H_NOTE,
-   text="Same search plus every byte-prefix of every generated file of project solo, every crash point (strace SIGKILL injection at the k-th file-system call) of build and --needed on four projects incl. one with a multi-buffer output, and all sources of <=3/4 lines with stale / non-UTF-8 / empty leftovers: every build transition gives the verdict and the bytes of a build from a pristine tree with the same sources, whatever was at the generated paths (stale, truncated, non-UTF-8, absent)."),
+   text="Same search plus every byte-prefix of every generated file of project solo, every crash point (strace SIGKILL injection at the k-th file-system call) of build and --needed on four projects incl. one with a multi-buffer output, and all sources of <=3/4 lines over a 20-line alphabet (short ones also without final newline) with stale / non-UTF-8 / empty / CRLF leftovers, and two-pass sources that generate a file and include it later: every build transition gives the verdict and the bytes of a build from a pristine tree with the same sources, whatever was at the generated paths (stale, truncated, non-UTF-8, absent)."),
  "C09": dict(engine="H", technique=H_TECH, ref="4.6, 5/C09", note=H_NOTE,
    text="Same search: every --needed transition is paired with a normal build and a verify from a copy of the same state: same verdict and bytes; outputs whose content was already correct keep inode and sentinel mtime; temp targets already correct are not rewritten by build, needed or verify; stale ones are brought up to date."),
  "C10": dict(engine="H", technique=H_TECH, ref="4.6, 5/C10", note=H_NOTE,
-   text="Every transition of the search and every mode on all sources of <=3/5 lines over the look-alike alphabet, successful and failing runs: the set of paths whose existence, bytes, inode or mtime changed is a subset of the outputs and temp targets of the processed sources (decoys at near-miss names in every directory); verify leaves outputs untouched; clean creates nothing; the production binary repeats the transitions of three projects, the sub-commands also with -N in front."),
+   text="Every transition of the search and every mode on all sources of <=3/5 lines over the look-alike alphabet, successful and failing runs, the empty input list of the library API: the set of paths whose existence, bytes, inode or mtime changed is a subset of the outputs and temp targets of the processed sources (decoys at near-miss names in every directory); verify leaves outputs untouched; clean creates nothing; the production binary repeats the transitions of three projects, the sub-commands also with -N in front."),
  "C17": dict(engine="E-conf", technique="exhaustive enumeration of a finite configuration space, each configuration executed on the real library (in a child process with the required cwd) or the production binary",
    ref="4.7, 5/C17", note="Trusted: sh, bash, pwd -P. TXTPP_FILE 'designates' the source if it resolves to it as absolute path, relative to the base directory, or relative to the command's directory (Q5).",
-   text="depth 0..3 x {library with 4 base-dir/cwd relations, CLI} x {default shell, bash -c, an argv-echo script} x {3 command shapes, exit codes 0/1/7, death by SIGKILL} (420 configurations) plus the TXTPP_FILE guard of the binary in 4 modes, a source that calls txtpp, and a source with commands that enters the run only as a dependency (below / above the depender): working directory, TXTPP_FILE, the single joined argument seen by the shell, stdout splicing and exit-status handling."),
+   text="depth 0..3 x {library with 4 base-dir/cwd relations, CLI} x {default shell, bash -c, an argv-echo script} x {6 command shapes incl. stdout that is not valid UTF-8, exit codes 0/1/7, death by SIGKILL} (1200 configurations; entries named sh / bash in every process working directory) plus the TXTPP_FILE guard of the binary in 4 modes (values and source names that are not valid UTF-8 included), a source that calls txtpp, and a source with commands that enters the run only as a dependency (below / above the depender): working directory, TXTPP_FILE, the single joined argument seen by the shell, stdout splicing and exit-status handling."),
 })
 CHECKS.update({
  "C04": dict(engine="S + X", technique="fault enumeration crossed with stateless model checking: every (fault kind, position, mode, input selection) explored under ALL task completion orders of the real coordinator; write limits enumerated at every byte count on the production binary",
@@ -63,10 +63,10 @@ CHECKS.update({
    text="Project a->b->c plus unrelated d: 16 fault kinds (directive errors, non-zero exit and death by signal of a command, unreadable/invalid/non-UTF-8 includes and sources, occupied or unwritable output and temp paths, in-process write limits, verify mismatches) x 5 positions of the faulty file (root, middle, leaf, sibling, sibling with an empty output) x {build, needed, verify, clean where it applies} x pool sizes (unsaturated, 1, 2) x input selections, each explored under all completion orders: the run must return Err in every schedule (never Ok, hang or panic); the fault-free baseline must return Ok with correct outputs in every schedule. Fault sequences: a fault in a->b plus a directory that vanishes while it waits to be scanned (-r), all completion orders. RLIMIT_FSIZE = n for every n from 0 to the largest generated file + 1 on the production binary: exit 0 iff nothing hit the limit, and then all outputs are complete; and on a project whose outputs end with one chunk > 8 KiB (include, command output, long last line, temp target): every multiple of 512 and +-1 around every multiple of 4096, trailing newline on/off, build and --needed."),
  "C11": dict(engine="E-tree", technique="exhaustive enumeration of directory trees x input lists x options, each executed on the real Txtpp::run (processed sources observed through the hook trace) and compared with a reference set-of-sources function",
    ref="4.7, 5/C11", note="Trusted: the reference function expected_set (harness/src/etree.rs), written from the property statement; canonical schedule.",
-   text="8 (quick) / 512 (thorough) trees over 3 directory levels x subsets of the three source-name shapes, with look-alike names in every directory, dotted-stem names and an include variant; input lists of length <=1/2 over 21 spellings (incl. sibling directories in a string-prefix relation) (directories, either name, ./ and ../, absolute, missing, look-alikes) x recursive x build/needed/verify/clean x absolute/relative base: the processed set (hook trace), the created / removed / verified outputs and their names must be exactly what the statement prescribes; a target without source must fail."),
+   text="8 (quick) / 512 (thorough) trees over 3 directory levels x subsets of the three source-name shapes, with look-alike names in every directory, dotted-stem names and an include variant; input lists of length <=1/2 over 23 spellings (incl. sibling directories in a string-prefix relation, a directory link and a file link) (directories, either name, ./ and ../, absolute, missing, look-alikes) x recursive x build/needed/verify/clean x absolute/relative base: the processed set (hook trace), the created / removed / verified outputs and their names must be exactly what the statement prescribes; a target without source must fail; variants with source-like directory names, hard-linked sources and directories named like a sibling's output; the production binary repeats single spellings and pairs on three trees in all four modes."),
  "C18": dict(engine="E-bytes", technique="bounded-exhaustive enumeration of hostile byte strings, arguments and option values, each executed on the real Txtpp::run under the controller (worker panics and the resulting coordinator hang are observed) and on the production binary",
    ref="4.7, 5/C18", note="Trusted: nothing beyond the OS. Bytes outside the 17-token alphabet and strings longer than the bound are not covered; special files are outside the domain.",
-   text="All byte strings of <=3/4 tokens over 17 hostile tokens (NUL, 0xff, split UTF-8, lone CR, directive fragments) in 4 roles (source, included file, existing output, existing temp target) x 4 modes; 270+ hostile directive lines; lines of 8191/8192/8193/65537 bytes; commands writing 65536/65537/300000 bytes to stdout / stderr / both; threads 0..16, 7 shells, bad base directories and inputs; the production binary on a 33-case core x 4 modes x thread counts x recursive: every run returns Ok or Err, no thread panics, the binary exits 0 or 1 in bounded time."),
+   text="All byte strings of <=3/4 tokens over 17 hostile tokens (NUL, 0xff, split UTF-8, lone CR, directive fragments) in 4 roles (source, included file, existing output, existing temp target) x 4 modes; 270+ hostile directive lines; lines of 8191/8192/8193/65537 bytes; commands writing 65536/65537/300000 bytes to stdout / stderr / both; directives with 60000 continuation lines; 70 sources named one by one of which the first fails; threads 0..16, 7 shells, bad base directories and inputs; the production binary on a 33-case core x 4 modes x thread counts x recursive: every run returns Ok or Err, no thread panics, the binary exits 0 or 1 in bounded time."),
 })
 NOT_YET = {}
 props = [json.loads(l) for l in open("/verif/properties.jsonl")]
